@@ -297,7 +297,7 @@ func c15Exhaustive(st *Stats) (string, any) {
 			}
 		}
 	}
-	// all same-kind triples; the numeric domain is thinned to keep the cube at ~10^6
+	// all same-kind triples
 	var nums, strs []int
 	for i := range vals {
 		if dom[i].T == "string" {
@@ -310,9 +310,6 @@ func c15Exhaustive(st *Stats) (string, any) {
 		for _, i := range set {
 			for _, j := range set {
 				for _, k := range set {
-					if len(set) > 120 && (i*31+j*17+k*7)%4 != 0 {
-						continue
-					}
 					triples++
 					if v := c15Triple(vals[i], vals[j], vals[k]); v != "" {
 						return v, &C15Case{Vals: []TV{dom[i], dom[j], dom[k]}}
@@ -440,7 +437,7 @@ func init() {
 		Rule: "part 1 (exhaustive, every run): a finite representative domain - for each of the 12 Go numeric types the boundary values " +
 			"(min, -129..-128, -2..2, 10, 127/128, 255/256, 32767/32768, 65535/65536, 2^31-1/2^31, 2^32-1/2^32, +-2^53 where representable), " +
 			"fractions for the float types, and 19 strings (empty, numeric-looking, prefixes, case pairs, multi-byte) - all ordered pairs and " +
-			"all same-kind ordered triples (numeric cube thinned 1:4); part 2: rapid draws pairs/triples of random typed values (any type, " +
+			"all same-kind ordered triples; part 2: rapid draws pairs/triples of random typed values (any type, " +
 			"small-magnitude bias, neighbours +-1 of the first value). Oracle: exact rational comparison (math/big) for number/number, " +
 			"strings.Compare for string/string and decimal-text/string; result in {-1,0,1}; reflexive; antisymmetric; transitive within kind. " +
 			"Non-trivial: operands of different Go types.",
